@@ -32,7 +32,7 @@ SHRINK_BUDGET_S = float(os.environ.get('VERIF_SHRINK_S', '45'))
 
 
 class Sub:
-    def __init__(self, name, strategy, check, quick, thorough, tag=None, rule='', thorough_strategy=None):
+    def __init__(self, name, strategy, check, quick, thorough, tag=None, rule='', thorough_strategy=None, enum=None):
         self.name = name
         self.strategy = strategy
         self.check = check
@@ -41,6 +41,7 @@ class Sub:
         self.tag = tag or (lambda case, failure: None)
         self.rule = rule
         self.thorough_strategy = thorough_strategy
+        self.enum = enum  # callable(tier) -> iterable of cases: complete enumeration instead of random generation
 
 
 class _Abort(BaseException):
@@ -165,6 +166,44 @@ def _collect(sub, n, sd, tier='quick'):
     return stats
 
 
+def _collect_enum(sub, tier, shard, nshards):
+    """Run every case of a finite enumeration (sharded by index modulo nshards)."""
+    stats = Stats()
+    for idx, case in enumerate(sub.enum(tier)):
+        if idx % nshards != shard:
+            continue
+        stats.evals += 1
+        try:
+            info = sub.check(case) or {}
+        except Discard as d:
+            stats.discards[d.reason] = stats.discards.get(d.reason, 0) + 1
+            continue
+        except Failure as f:
+            sig, tag = _sig(sub, case, f)
+            bkey = sub.name + '::' + sig
+            b = stats.buckets.get(bkey)
+            pk = pickle.dumps(case, protocol=4)
+            if b is None:
+                stats.buckets[bkey] = dict(count=1, tag=tag, sub=sub.name, sig=sig, pickle=pk, kind=f.kind,
+                                           detail=f.detail[:2000], where=f.where, seed=0, enum=True)
+            else:
+                b['count'] += 1
+                if len(pk) < len(b['pickle']):
+                    b.update(pickle=pk, kind=f.kind, detail=f.detail[:2000], where=f.where)
+            continue
+        except Exception as e:  # noqa: BLE001
+            if len(stats.harness_errors) < 5:
+                stats.harness_errors.append('%s: %s\n%s\ncase=%s' % (sub.name, e, traceback.format_exc()[-1500:], short(case, 800)))
+            continue
+        for c in info.get('cls', ()):
+            stats.classes[c] = stats.classes.get(c, 0) + 1
+        if info.get('nt'):
+            stats.nt_keys.add(case_key(case))
+            if len(stats.samples) < 2:
+                stats.samples.append({'sub': sub.name, 'case': jsonable(case)})
+    return stats
+
+
 def _shrink(sub, n, sd, target_sig, first_pickle, tier='quick'):
     """Re-run with shrinking, raising only for target_sig; return the smallest failing case."""
     best = {'pk': first_pickle}
@@ -209,6 +248,8 @@ def _shard_job(args):
     import importlib
     mod = importlib.import_module(modname)
     sub = next(s for s in mod.SUBS if s.name == subname)
+    if isinstance(n, tuple):  # ('enum', shard, nshards)
+        return subname, _collect_enum(sub, tier, n[1], n[2])
     st = _collect(sub, n, sd, tier)
     return subname, st
 
@@ -302,6 +343,11 @@ def run_property(mod, tier, sd, replay=None, only=None):
     subs = [s for s in mod.SUBS if (only is None or s.name in only)]
     jobs = []
     for sub in subs:
+        if sub.enum is not None:
+            k = NSHARDS if tier == 'thorough' else 4
+            for q in range(k):
+                jobs.append((mod.__name__, sub.name, ('enum', q, k), sd, tier))
+            continue
         n = sub.quick if tier == 'quick' else sub.thorough
         if n <= 0:
             continue
@@ -341,7 +387,8 @@ def run_property(mod, tier, sd, replay=None, only=None):
         n = sub.quick if tier == 'quick' else max(sub.thorough // NSHARDS, sub.quick)
         case = pickle.loads(b['pickle'])
         try:
-            case = _shrink(sub, n, b['seed'], sig, b['pickle'], tier)
+            if not b.get('enum'):
+                case = _shrink(sub, n, b['seed'], sig, b['pickle'], tier)
         except Exception as e:  # noqa: BLE001
             notes.append('shrink failed for %s: %r' % (sig, e))
         status, sig2, f = run_case(sub, case)
